@@ -28,7 +28,7 @@ import core
 from ser import rat
 
 LEAN_MODULE = "Optyx.Props.C06b"
-EXTRA_MODULES = ["Optyx.Props.PinsC06", "Optyx.Props.SolveTie", "Optyx.Props.ConstraintTie", "Optyx.Props.C06Source", "Optyx.Props.BuildTie", "Optyx.Props.LPFastTie"]   # transcription anchors (harness/source_pins.py)
+EXTRA_MODULES = ["Optyx.Props.PinsC06", "Optyx.Props.SolveTie", "Optyx.Props.ConstraintTie", "Optyx.Props.C06Source", "Optyx.Props.BuildTie", "Optyx.Props.LPFastTie", "Optyx.Props.CompileEntryTie"]   # transcription anchors (harness/source_pins.py)
 THEOREMS = [
     "Optyx.Props.C06.pass_optimal_feasible",
     "Optyx.Props.C06.scipy_optimal_feasible",
@@ -56,6 +56,8 @@ THEOREMS = [
     "Optyx.Props.LPFastTie.fastBinop_eq",
     "Optyx.Props.LPFastTie.extractAll_eq",
     "Optyx.Props.LPFastTie.aligned_iff",
+    "Optyx.Props.CompileEntryTie.compileExpression_eq",
+    "Optyx.Props.CompileEntryTie.param_run",
     "Optyx.Props.PinsC06.anchors",
 ]
 ASSUMPTIONS = [
